@@ -1,5 +1,6 @@
 import EaselModel.Msafile.AfaLemmas
 import EaselModel.Msafile.AfaWritable
+import EaselModel.Msafile.AfaIdem
 import EaselModel.Msafile.Digitize
 /-! # C03 — writing an alignment and reading it back preserves it: property theorems
 
@@ -59,6 +60,21 @@ theorem afa_preserves_names_rows (m : Msa) (h : AfaTextWritable m) :
   refine ⟨rfl, rfl, ?_⟩
   intro i hi
   simp [afaProject, afaCfg, Cfg.digital, Msa.stored, h.dig, List.getD_eq_getElem?_getD, hi]
+
+/-- **re-writing the re-read alignment reproduces the same bytes** (text mode): `write (read (write m)) = write m` -/
+theorem afa_rewrite_same_text (m : Msa) (h : AfaTextWritable m) :
+    ∃ m', (afaRead (afaCfg none) (splitLines (afaWrite none m))).1 = .ok m' ∧ afaWrite none m' = afaWrite none m :=
+  ⟨afaProject (afaCfg none) m, by rw [afa_roundtrip_text m h], afaWrite_project_text m h⟩
+
+/-- … and in digital mode (amino, DNA, RNA) -/
+theorem afa_rewrite_same_digital (a : Abc) (ha : a = abcAmino ∨ a = abcDna ∨ a = abcRna) (m : Msa) (h : AfaDigitalWritable a m) :
+    ∃ m', (afaRead (afaCfg (some a)) (splitLines (afaWrite (some a) m))).1 = .ok m' ∧ afaWrite (some a) m' = afaWrite (some a) m := by
+  have hs : afaDigSymOk a = true := by
+    rcases ha with h | h | h <;> subst h
+    · exact afaDigSymOk_amino
+    · exact afaDigSymOk_dna
+    · exact afaDigSymOk_rna
+  exact ⟨afaProject (afaCfg (some a)) m, by rw [afa_roundtrip_digital a ha m h], afaWrite_project_digital a hs m h⟩
 
 /-! ## non-vacuity -/
 
